@@ -599,6 +599,12 @@ func generate(e *vh.Env) {
 		a, b := pair()
 		run(e, spec{Kind: "equal", A: hexWords(a), B: hexWords(b)})
 	}
+	// ---- results are fresh values: programs over a pool of bitmaps (C08_Prog.v)
+	for _, pat := range []string{"alias", "random"} {
+		for k, vol := 0, e.Scale(52, 1000)*want(e, "prog/"+pat); k < vol; k++ {
+			run(e, spec{Kind: "prog", Op: pat, Prog: genProg(r, pat, k)})
+		}
+	}
 	// ---- Bit64's own methods
 	bytesArg := []uint64{0, 1, 2, 31, 32, 62, 63, 64, 65, 127, 128, 129, 191, 192, 254, 255}
 	for _, op := range []string{"WSet", "WUnset", "WAnd", "WOr", "WReverse"} {
@@ -623,4 +629,128 @@ func generate(e *vh.Env) {
 	}
 	e.Meta["functions_called"] = "Bit64: 10 iterators, 8 GetN, Set/Unset/And/Or/Reverse/Len/NLen/Full; Bit1024: 8 iterators, 6 GetN, SetI32/UnsetI32/SetI16/UnsetI16, Len/NLen, Reverse/And/Or/OrThenReverse/Equal"
 	e.Meta["sparse_magic"] = "every Bit64 iterator input is run under one threshold below and one at/above its popcount (VerifSetSparseMagic)"
+}
+
+// ---------------------------------------------------------------- programs over a pool
+
+// sparseLit: a few members from one quarter of the range (two literals from different quarters are disjoint,
+// literals from the same quarter often overlap).
+func sparseLit(r *rand.Rand, quarter int) []string {
+	ms := make([]int, 1+r.Intn(4))
+	for i := range ms {
+		ms[i] = quarter*256 + r.Intn(256)
+	}
+	return hexWords(fromMembers(ms...))
+}
+
+var mutOps = []string{"PSetI32", "PUnsetI32", "PSetI16", "PUnsetI16", "PSetI32", "PSetI16"}
+var binOps = []string{"BAnd", "BOr", "BOrThenReverse", "BAnd"}
+
+func genMut(r *rand.Rand, a int) progOp {
+	i := int64(r.Intn(1024))
+	if r.Intn(8) == 0 {
+		i = []int64{-1, -63, 1024, 0, 63, 64, 1023}[r.Intn(7)]
+	}
+	return progOp{Op: mutOps[r.Intn(len(mutOps))], A: a, I: i}
+}
+
+// genProg: at most 12 steps, at most 7 pool members.
+//   "alias": (1) two operands whose result is empty / equal to an operand / x op x, (2) mutate the RESULT,
+//   (3) the same kind of operation again on other operands, (4) mutate that result and the operands; every member
+//   is observed after every step, so a result that shares storage with an operand, with an earlier result or with a
+//   package-level value shows as soon as either side changes.
+//   "random": any mix, operands biased to the most recent members and to a == b.
+func genProg(r *rand.Rand, pat string, k int) []progOp {
+	var ops []progOp
+	n := 0 // pool size
+	push := func(o progOp) int {
+		ops = append(ops, o)
+		switch o.Op {
+		case "PNew", "PLit", "BAnd", "BOr", "BOrThenReverse", "PRev":
+			n++
+		}
+		return n - 1
+	}
+	lit := func(q int) int {
+		switch r.Intn(8) {
+		case 0:
+			return push(progOp{Op: "PNew"})
+		case 1:
+			full := empty1024()
+			for i := range full {
+				full[i] = ^bm.Bit64(0)
+			}
+			return push(progOp{Op: "PLit", W: hexWords(full)})
+		}
+		return push(progOp{Op: "PLit", W: sparseLit(r, q)})
+	}
+	if pat == "alias" {
+		op := binOps[k%len(binOps)]
+		q := r.Intn(4)
+		a := push(progOp{Op: "PLit", W: sparseLit(r, q)})
+		var b int
+		switch (k / len(binOps)) % 4 {
+		case 0: // disjoint operands: empty intersection, union = sum
+			b = push(progOp{Op: "PLit", W: sparseLit(r, (q+1)%4)})
+		case 1: // x op x: result equal to the operand (And, Or)
+			b = a
+		case 2: // one operand empty: And empty, Or equal to the other operand
+			b = push(progOp{Op: "PNew"})
+			if r.Intn(2) == 0 {
+				a, b = b, a
+			}
+		default:
+			b = lit(q)
+		}
+		r1 := push(progOp{Op: op, A: a, B: b})
+		push(genMut(r, r1)) // mutate the result
+		push(genMut(r, r1))
+		// the same kind of operation again, on fresh disjoint operands / the same operands
+		var c, d int
+		if r.Intn(3) == 0 {
+			c, d = a, b
+		} else {
+			q2 := r.Intn(4)
+			c = push(progOp{Op: "PLit", W: sparseLit(r, q2)})
+			d = push(progOp{Op: "PLit", W: sparseLit(r, (q2+2)%4)})
+		}
+		r2 := push(progOp{Op: op, A: c, B: d})
+		push(genMut(r, r2))
+		push(genMut(r, []int{a, b, c, d}[r.Intn(4)])) // mutate an operand afterwards
+		push(genMut(r, r1))
+		if n < 7 && r.Intn(2) == 0 {
+			push(progOp{Op: "PRev", A: r2})
+			push(genMut(r, n-1))
+		}
+		return ops
+	}
+	steps := 6 + r.Intn(7)
+	for len(ops) < steps {
+		pick := func() int {
+			if n == 0 {
+				return 0
+			}
+			if r.Intn(2) == 0 {
+				return n - 1 - r.Intn(minInt(n, 2))
+			}
+			return r.Intn(n)
+		}
+		c := r.Intn(10)
+		switch {
+		case n < 2 || (c == 0 && n < 7):
+			lit(r.Intn(4))
+		case c <= 3 && n < 7:
+			a := pick()
+			b := pick()
+			if r.Intn(4) == 0 {
+				b = a
+			}
+			push(progOp{Op: binOps[r.Intn(len(binOps))], A: a, B: b})
+		case c == 4 && n < 7:
+			push(progOp{Op: "PRev", A: pick()})
+		default:
+			push(genMut(r, pick()))
+		}
+	}
+	return ops
 }
